@@ -160,8 +160,8 @@ poll_next = BlockFn(F, r"fn poll_next\(mut self: Pin<&mut Self>, ctx: &mut Conte
                "final(a).forwarded == old(a).forwarded && final(a).delivered == old(a).delivered && final(a).pending == old(a).pending && final(a).ev == old(a).ev"),
     ],
     rules=[
-        Rule("D26", r"Pin::new\(&mut self\.0\)", "&mut this.0", "Pin<&mut Self> of an Unpin type is a plain exclusive borrow", min_count=1),
-        AppendArg("B66", r"recv\.poll_next\(", A, "futures Stream::poll_next of the forwarding channel (stub)", min_count=1),
+        Rule("D26", r"Pin::new\(&mut self\.0\)", "(&mut this.0)", "Pin<&mut Self> of an Unpin type is a plain exclusive borrow", min_count=1),
+        AppendArg("B66", r"\.poll_next\(", A, "futures Stream::poll_next of the forwarding channel (stub)", min_count=1),
         Rule("D31", r"\.map\(Ok\)", ".map(|v| -> (x: Result<_, _>) ensures x == Ok::<_, BincodeError>(v) { Ok(v) })", "eta-expansion of a datatype constructor used as a function value"),
         Rule("D31", r"\.map\(Some\)", ".map(|v| -> (x: Option<_>) ensures x == Some(v) { Some(v) })", "eta-expansion of a datatype constructor used as a function value"),
     ],
